@@ -21,7 +21,9 @@ def nest_classes():
             for i, w in enumerate(outs):
                 self.addOut('o%d' % i, w)
             if extra is not None:
-                d, w, read = extra
+                d, w, read = extra[:3]
+                if len(extra) > 3 and extra[3] is not None:
+                    self.clockDriver = extra[3]         # this level runs on its own (gated / derived / generated) clock
                 if d == 'in':
                     self.addIn('xp', w)
                     if read:
@@ -63,6 +65,54 @@ def dynamic_driver(parent, name, wire, meth):
     return blk
 
 
+# The wire an extra port is attached to.  Besides a fresh wire of the top level: the special wires of a system -- the wire object
+# held by the system clock driver, by a gated / derived driver of the level that owns the port, by a base driver; the enable wire
+# of a gated clock; a clock wire that a block generates; wires that live in another scope (one of them named like the clock).
+# driven = some block's out port drives it (that is the only thing the clause looks at).
+SPECIAL_WIRES = {'fresh': False, 'sysclk': False, 'gated_wire': False, 'gated_base': False, 'derived_base2': False, 'derived_mid': False,
+                 'other_scope': False, 'other_scope_named_clk': False,
+                 'gated_enable': True, 'generated_clk': True, 'other_scope_driven': True, 'gated_wire_generated': True}
+
+
+def special_wire(hw, kind):
+    """-> (wire, clock driver to install on the level that owns the port, or None)"""
+    import py4hw
+    if kind == 'fresh':
+        return hw.wire('xp_wire', 3), None
+    if kind == 'sysclk':
+        return hw.clockDriver.wire, None
+    if kind in ('other_scope', 'other_scope_named_clk', 'other_scope_driven'):
+        side = py4hw.Logic(hw, 'side')
+        w = side.wire('clk' if kind == 'other_scope_named_clk' else 'sw', 1)
+        if kind == 'other_scope_driven':
+            py4hw.Constant(side, 'sdrv', 1, w)
+        return w, None
+    en = hw.wire('xp_en', 1)
+    py4hw.Constant(hw, 'xp_en_drv', 1, en)
+    g = hw.wire('xp_gclk', 1)
+    if kind == 'generated_clk':
+        # a clock that a block of the design produces (PLL, divider): the driver's wire has a source
+        py4hw.Constant(hw, 'xp_pll', 1, g)
+        return g, py4hw.ClockDriver('gen', 25E6, 0, wire=g)
+    if kind == 'gated_wire_generated':
+        py4hw.Constant(hw, 'xp_pll', 1, g)
+        return g, py4hw.ClockDriver('gated', base=hw.clockDriver, enable=en, wire=g)
+    gated = py4hw.ClockDriver('gated', base=hw.clockDriver, enable=en, wire=g)
+    if kind == 'gated_wire':
+        return g, gated
+    if kind == 'gated_base':
+        return hw.clockDriver.wire, gated
+    if kind == 'gated_enable':
+        return en, gated
+    g2 = hw.wire('xp_gclk2', 1)
+    second = py4hw.ClockDriver('gated2', base=gated, enable=en, wire=g2)
+    if kind == 'derived_base2':
+        return hw.clockDriver.wire, second
+    if kind == 'derived_mid':
+        return g, second
+    raise ValueError(kind)
+
+
 def build_case(case):
     """-> (chain of hierarchy nodes [hw, W1..Wd, dut], info)"""
     import py4hw
@@ -85,7 +135,7 @@ def build_case(case):
             drivers[k] = py4hw.Sequence(hw, 'drv%d' % k, [0, 1, 3], w)
         else:
             drivers[k] = py4hw.Constant(hw, 'drv%d' % k, k + 1, w)
-    xw = hw.wire('xp_wire', 3) if fault.get('kind') == 'port' else None
+    xw, xclk = special_wire(hw, fault.get('wire', 'fresh')) if fault.get('kind') == 'port' else (None, None)
     chain = [hw]
     holder = {}
 
@@ -95,7 +145,7 @@ def build_case(case):
             ins2, outs2 = r.build(parent, cfg, lambda n, w: wires[n])
             holder['dut'] = parent.children['d']
             return
-        extra = (fault['dir'], xw, fault.get('read', False)) if fault.get('kind') == 'port' and fault['level'] == j else None
+        extra = (fault['dir'], xw, fault.get('read', False), xclk) if fault.get('kind') == 'port' and fault['level'] == j else None
 
         def body(me):
             chain.append(me)
@@ -137,6 +187,8 @@ def plan_expected(case, info):
             return True
         return None
     if k == 'port':
+        if SPECIAL_WIRES[f.get('wire', 'fresh')]:
+            return False                 # the extra port sits on a wire that a block drives
         return c <= f['level']
     raise ValueError(k)
 
@@ -213,6 +265,16 @@ def cases_for(src, block, cfg, rnd, tier):
             mk(d, rnd.randrange(0, L + 1), dict(kind='port', level=L, dir=dr, read=rd), readers=False)
             if rnd.random() < 0.5:
                 mk(d, rnd.randrange(L + 1, d + 2), dict(kind='port', level=L, dir=dr, read=rd))
+    # the same extra port on the special wires of the system (clock driver wires, other scopes), driven and not
+    kinds = sorted(k for k in SPECIAL_WIRES if k != 'fresh')
+    picks = kinds if tier == 'thorough' else rnd.sample(kinds, 4)
+    for wk in picks:
+        d = rnd.choice([x for x in depths if x])
+        L = rnd.randrange(1, d + 1)
+        dr, rd = rnd.choice([('in', False), ('in', True), ('in', True), ('out', False)])
+        inside = rnd.random() < 0.8
+        c = rnd.randrange(0, L + 1) if inside else rnd.randrange(L + 1, d + 2)
+        mk(d, c, dict(kind='port', level=L, dir=dr, read=rd, wire=wk), readers=False)
     return out
 
 
